@@ -34,6 +34,7 @@ enum EncK {
     BigEndian,
     Bcd,
     Hex,
+    Utf8,
 }
 #[derive(Clone, Copy, PartialEq, Debug)]
 enum Wrap {
@@ -89,6 +90,7 @@ impl FK {
             EncK::BigEndian => Some("zvt_builder::encoding::BigEndian"),
             EncK::Bcd => Some("zvt_builder::encoding::Bcd"),
             EncK::Hex => Some("zvt_builder::encoding::Hex"),
+            EncK::Utf8 => Some("zvt_builder::encoding::Utf8"),
         };
         let len = match self.len {
             LenK::Empty => None,
@@ -138,6 +140,7 @@ impl FK {
         let enc = match (&self.ty, self.enc) {
             (Ty::Nested(n), _) => n.to_string(),
             (Ty::Str, EncK::Hex) => "hex".into(),
+            (Ty::Str, EncK::Utf8) => "utf8".into(),
             (Ty::Str, _) => "txt".into(),
             (Ty::U8, EncK::Bcd) => "bcd8".into(),
             (Ty::U16, EncK::Bcd) => "bcd16".into(),
@@ -241,6 +244,7 @@ fn scalar_kinds() -> Vec<(Ty, EncK)> {
     }
     v.push((Ty::Str, EncK::Default));
     v.push((Ty::Str, EncK::Hex));
+    v.push((Ty::Str, EncK::Utf8));
     v
 }
 
